@@ -448,6 +448,9 @@ func mutate(r *vh.Rand, h []byte, v1 bool) ([]byte, string) {
 	case 3:
 		return h[:r.Intn(len(h))], "m-trunc"
 	case 4:
+		if r.Bool() { // the legacy 13-byte LOCAL form, with or without something behind it
+			return append(append([]byte(nil), sigV2...), 0x20), "m-local13"
+		}
 		return h[:r.Range(12, 16)], "m-trunc16"
 	case 5:
 		i := r.Intn(12)
@@ -623,6 +626,7 @@ func pre(emit func(string), thorough bool) {
 		{"v1unk", "PROXY UNKNOWN\r\n"},
 		{"v1unk", "PROXY UNKNOWN ffff:ffff:ffff:ffff:ffff:ffff:ffff:ffff ffff:ffff:ffff:ffff:ffff:ffff:ffff:ffff 65535 65535\r\n"},
 		{"v2local", string(sigV2) + "\x20\x00\x00\x00"},
+		{"v2local13", string(sigV2) + "\x20"}, // legacy short form: accepted only if nothing follows
 		{"v2local", string(sigV2) + "\x20\x00\x00\x07\x04\x00\x04abcd"},
 		{"v2local", string(sigV2) + "\x20\x11\x00\x0c\x01\x02\x03\x04\x05\x06\x07\x08\x03\xe8\x01\xbb"},
 		{"v2tcp4", string(sigV2) + "\x21\x11\x00\x0c\x01\x02\x03\x04\x05\x06\x07\x08\x03\xe8\x01\xbb"},
